@@ -39,8 +39,12 @@ class GpioWorld(World):
 
     def gen_config(self, rng, prop):
         dw = rng.choice([8, 16, 32])
-        pc = rng.range(1, dw + 1 if dw == 8 else 12) if rng.chance(0.8) else rng.range(1, 2 * dw + 1) \
-            if dw == 8 else rng.range(1, 20)
+        if rng.chance(0.8):
+            pc = rng.range(1, dw + 1 if dw == 8 else 12)
+        elif dw == 8 or rng.chance(0.3):
+            pc = rng.range(1, 2 * dw + 1)
+        else:
+            pc = rng.range(1, 20)
         def p2(x):
             return 1 << (max(1, x) - 1).bit_length()
         s1, s2 = p2((2 * pc + dw - 1) // dw), p2((pc + dw - 1) // dw)
